@@ -27,8 +27,8 @@ Definition name_255 : name := [lbl 120 63; lbl 121 63; lbl 122 63; lbl 119 61].
 Definition name_256 : name := [lbl 120 63; lbl 121 63; lbl 122 63; lbl 119 62].
 Example ex_name_255 : new_name name_255 = Ok name_255 /\ name_wire_len name_255 = 255.
 Proof. split; vm_compute; reflexivity. Qed.
-Example ex_name_255_rt : read_name (fst (write_name [] 0 name_255)) 0 = Ok (name_255, 255).
-Proof. vm_compute. reflexivity. Qed.
+Example ex_name_255_rt : exists w c, write_name [] 0 name_255 = Some (w, c) /\ read_name w 0 = Ok (name_255, 255).
+Proof. do 2 eexists. split; vm_compute; reflexivity. Qed.
 Example ex_name_256 : new_name name_256 = Err ENameTooLong.
 Proof. vm_compute. reflexivity. Qed.
 Example ex_label_64 : new_name [lbl 97 64] = Err ELabelTooLong.
